@@ -9,7 +9,7 @@ PROBES = ("check_in_b", "apply_filter", "gauss_inside", "lhs_inside", "edge0", "
           "lattice", "tie", "const", "echo")
 RULE = ("cases = (domain expression from the R-geo generator inside the conditioning envelope, parameter rows, "
         "entry point [Domain.sample_random_uniform|sample_grid, RandomUniform/Grid/Gaussian/LHS/Adaptive* sampler, "
-        "n or density, optional filter], SimRNG fault plan) derived from sha256(VERIF_SEED, 'C01', index); "
+        "n or density, optional filter; adaptive samplers get 1-3 rounds whose earlier rounds may be called with other parameter rows], SimRNG fault plan) derived from sha256(VERIF_SEED, 'C01', index); "
         "oracle: float64 reference margin/deviation of every returned row at its own parameter row <= 1e-4, "
         "finite, right space, call returns within the draw budget; a case is non-trivial when at least one row "
         "was judged; distinct = distinct (feature cell, kinds of faults that fired, rows judged>0) keys")
